@@ -271,6 +271,9 @@ void XMLWriter::nail(int x, int y)
 void XMLWriter::transition(const edge_t& edge)
 {
     startElement("transition");
+    if (!edge.control) {
+        writeAttribute("controllable", "false");
+    }
     // source and target
     auto src = source(edge);
     auto dst = target(edge);
@@ -305,6 +308,9 @@ void XMLWriter::labels(int x, int y, const edge_t& edge)
     }
     if (!edge.assign.empty()) {
         label("assignment", edge.assign.str(), x, y + 16);
+    }
+    if (!edge.prob.empty()) {  // the default weight "1" is skipped by label()
+        label("probability", edge.prob.str(), x, y + 32);
     }
 }
 
